@@ -276,7 +276,7 @@ int read_pax_header(sqfs_istream_t *fp, sqfs_u64 entsize,
 		    unsigned int *set_by_pax, tar_header_decoded_t *out)
 {
 	char *buffer, *line, *key, *ptr, *value, *end;
-	sparse_map_t *sparse_last = NULL, *sparse;
+	sparse_map_t *sparse_first = NULL, *sparse_last = NULL, *sparse;
 	sqfs_u64 offset = 0, num_bytes = 0;
 	const struct pax_handler_t *field;
 	size_t diff;
@@ -335,9 +335,12 @@ int read_pax_header(sqfs_istream_t *fp, sqfs_u64 entsize,
 				goto fail_errno;
 			sparse->offset = offset;
 			sparse->count = num_bytes;
-			if (sparse_last == NULL) {
+			/* a GNU.sparse.map record in between replaces the
+			   list that we have been appending to */
+			if (sparse_last == NULL || out->sparse != sparse_first) {
 				free_sparse_list(out->sparse);
 				out->sparse = sparse_last = sparse;
+				sparse_first = sparse;
 			} else {
 				sparse_last->next = sparse;
 				sparse_last = sparse;
